@@ -58,6 +58,31 @@ def run(ctx):
         rsub["failures"] += fails
         rsub["evaluations"] += n
     results.append(rsub)
+    # irregular time axes with an EVEN number of steps (the median of the steps is a half-integer number of seconds):
+    # every time carrier, on the tests that derive a count from the median step
+    import fn_atten
+    import fn_flat
+    at, fl = fn_atten.Attenuated(), fn_flat.FlatLine()
+    pool = [c for c in fn_atten.gen_atten(tier, rng) if at.in_domain(c) and c["min_period"] and c["tp"] not in ("absent", None, 0)
+            and len(c["ts"]) >= 3 and len(c["ts"]) % 2 == 1 and len({b - a for a, b in zip(c["ts"], c["ts"][1:])}) > 1]
+    extra = {"evaluations": 0, "distinct_nontrivial": 0, "failures": [], "errors": [], "samples": [], "distribution": {}}
+    for c in cc.sample(pool, 25 if tier == "quick" else 250, rng):
+        n, fails = cc.c15_failures("attenuated_signal_test", at, c, rng, full=True, time_only=True)
+        extra["evaluations"] += n
+        extra["failures"] += fails
+    for _ in range(25 if tier == "quick" else 250):
+        n = rng.choice([3, 5, 7])
+        ts, t = [], 1577880000
+        for _ in range(n):
+            ts.append(t * 10 ** 9)
+            t += rng.choice([1, 2, 3, 5])
+        xs = [rng.choice(["1", "1", "1", "2", "5/2", None]) for _ in range(n)]
+        c = fn_flat.mk([None if x is None else cc.F(x) for x in xs], ts, cc.F(rng.choice([2, 3, 4])), cc.F(rng.choice([4, 6])), cc.F(1, 10) if False else cc.F(1, 8))
+        k, fails = cc.c15_failures("flat_line_test", fl, c, rng, full=True, time_only=True)
+        extra["evaluations"] += k
+        extra["failures"] += fails
+    extra["distinct_nontrivial"] = extra["evaluations"]
+    results.append(extra)
     # a representation may be a MUTABLE object the caller refills in place between calls (a rolling buffer):
     # ndarray / list carriers of data and times, reused across consecutive calls, must give the flags of fresh ones
     timed = [t for t in reg if t[0] in ("rate_of_change_test", "flat_line_test", "attenuated_signal_test", "speed_test",
